@@ -82,3 +82,23 @@ Theorem C03_ubj_space : forall vfail chunks p s err, forallb all_bytes chunks = 
      <= 3 * length (concat chunks))%nat.
 Proof. exact SF.Ubjson.ParseSafety.C03_ubj_space. Qed.
 Print Assumptions C03_ubj_space.
+
+(* Pull decoders (the statements are those of Properties/C18.v; repeated here because C03
+   speaks about the decoders too): over ANY reader script - any read sizes, empty reads, any
+   error code at any read - and for any visitor behaviour, Next returns: it never crashes and
+   never runs out of fuel.  JSON: from any parser state satisfying the invariant of the safety
+   proof; UBJSON: no crash unconditionally, termination under the guard that excludes finding
+   F2; CBOR: see C18_cbor_next_total. *)
+From SF Require Json.Parse Json.ParseSafety Json.ParseVisitorProofs Ubjson.Parse Ubjson.ParseVisitorProofs.
+Theorem C03_json_decoder_total : forall (pf : bytes -> option Z) fuel d s,
+  SF.Json.ParseSafety.inv (SF.Json.Parse.jd_p d) -> (SF.Json.ParseVisitorProofs.jmeasure d < fuel)%nat ->
+  exists d' s' e, SF.Json.Parse.jdec_next fuel pf d s = Ok (d', s', e) /\
+    (e = SF.Json.Parse.jpnil -> SF.Json.ParseSafety.inv (SF.Json.Parse.jd_p d')) /\
+    (SF.Json.ParseVisitorProofs.jmeasure d' <= SF.Json.ParseVisitorProofs.jmeasure d)%nat.
+Proof. exact SF.Json.ParseVisitorProofs.C18_json_next_total. Qed.
+Print Assumptions C03_json_decoder_total.
+
+Theorem C03_ubj_decoder_no_panic : forall fuel sc s w,
+  SF.Ubjson.Parse.udec_next fuel (SF.Ubjson.ParseVisitorProofs.ureader_dec sc) s <> Panic w.
+Proof. exact SF.Ubjson.ParseVisitorProofs.C18_ubj_reader_no_panic. Qed.
+Print Assumptions C03_ubj_decoder_no_panic.
